@@ -101,10 +101,10 @@ struct Blake2b {
 	}
 };
 
-inline void blake2b(void* out, size_t outlen, const void* in, size_t inlen, const void* key = nullptr, size_t keylen = 0) {
+inline void b2b(void* out, size_t outlen, const void* in, size_t inlen, const void* key = nullptr, size_t keylen = 0) {
 	Blake2b b; b.init(outlen, key, keylen); b.update(in, inlen); b.final(out);
 }
-inline void hash512(void* out, const void* in, size_t n) { blake2b(out, 64, in, n); }
-inline void hash256(void* out, const void* in, size_t n) { blake2b(out, 32, in, n); }
+inline void hash512(void* out, const void* in, size_t n) { b2b(out, 64, in, n); }
+inline void hash256(void* out, const void* in, size_t n) { b2b(out, 32, in, n); }
 
 } // namespace mdl
